@@ -72,6 +72,14 @@ namespace bloch::runtime {
         }
         return v;
     }
+    // A qubit handle is bound once, by the declaration that allocates it. The analyser rejects the
+    // copies it can see; a slot typed by a class type parameter is only known to hold a qubit here.
+    static void rejectQubitCopy(const Value& v, int line, int column) {
+        if (v.type == Value::Type::Qubit || v.type == Value::Type::QubitArray) {
+            throw BlochError(ErrorCategory::Runtime, line, column,
+                             "qubit values cannot be reassigned");
+        }
+    }
     static Value::Type declaredKind(Type* t) {
         if (auto prim = dynamic_cast<PrimitiveType*>(t)) {
             if (prim->name == "long")
@@ -1675,6 +1683,7 @@ namespace bloch::runtime {
                 const auto& param = ctor->params[i];
                 auto fieldMeta = findInstanceField(cls, param->name);
                 if (fieldMeta && fieldMeta->offset < obj->fields.size()) {
+                    rejectQubitCopy(args[i], param->line, param->column);
                     obj->fields[fieldMeta->offset] = stampStatic(
                         widenToSlot(args[i], fieldMeta->type.kind), fieldMeta->type.className);
                 }
@@ -2043,6 +2052,7 @@ namespace bloch::runtime {
                     v = eval(var->initializer.get());
                     initialized = true;
                 }
+                rejectQubitCopy(v, var->line, var->column);
             }
             m_env.back()[var->name] = {stampStatic(widenToSlot(v, declaredKind(var->varType.get())),
                                                    declaredClassName(var->varType.get())),
@@ -2151,6 +2161,7 @@ namespace bloch::runtime {
             }
         } else if (auto assignStmt = dynamic_cast<AssignmentStatement*>(s)) {
             Value val = eval(assignStmt->value.get());
+            rejectQubitCopy(val, assignStmt->line, assignStmt->column);
             assign(assignStmt->name, val);
         }
     }
@@ -3161,6 +3172,7 @@ namespace bloch::runtime {
             }
         } else if (auto assignExpr = dynamic_cast<AssignmentExpression*>(e)) {
             Value v = eval(assignExpr->value.get());
+            rejectQubitCopy(v, assignExpr->line, assignExpr->column);
             assign(assignExpr->name, v);
             return v;
         } else if (auto memAssign = dynamic_cast<MemberAssignmentExpression*>(e)) {
@@ -3170,6 +3182,7 @@ namespace bloch::runtime {
                                  "null reference");
             }
             Value rhs = eval(memAssign->value.get());
+            rejectQubitCopy(rhs, memAssign->line, memAssign->column);
             if (obj.type == Value::Type::Object && obj.objectValue) {
                 RuntimeField* instField =
                     obj.objectValue->cls
